@@ -2,7 +2,7 @@
 From Coq Require Import List ZArith NArith Bool.
 From Coq.Strings Require Import Byte.
 Import ListNotations.
-From SV Require Import Text G_flags C15_Model C15_Lemmas C15_Read C15_Fold C15_Blocks C15_Rows.
+From SV Require Import Text G_flags C15_Model C15_Lemmas C15_Read C15_Fold C15_Blocks C15_Rows C15_RowInv C15_RowIdem.
 
 (* the Defect values the row functions rely on (regenerated from /repo) *)
 Theorem C15_flags_pinned : D_NONE = 0%N /\ D_MISS_LEFT = 1%N /\ D_MISS_RIGHT = 2%N /\ D_BEYOND_LEFT = 4%N /\ D_BEYOND_RIGHT = 8%N.
@@ -81,10 +81,40 @@ Theorem C15_read_text_gs_join : forall t ls e rest i k v vs r,
 Proof. exact read_text_gs_join. Qed.
 Print Assumptions C15_read_text_gs_join.
 
+(* column data (GC, GR, sequence rows) with ANY placement of the lines, i.e. any block layout: every key reads as the
+   concatenation of its fragments in file order *)
+Theorem C15_stk_columns_anywhere : forall its,
+  (forall k v vs, gc_frags k its = v :: vs -> lookup k (s_gc (fold_left step its st0)) = Some (concat (v :: vs)))
+  /\ (forall i v vs, seq_frags i its = v :: vs -> lookup i (s_seqs (fold_left step its st0)) = Some (concat (v :: vs)))
+  /\ (forall i k v vs, gr_frags i k its = v :: vs ->
+        lookup k (getd i (s_gr (fold_left step its st0))) = Some (concat (v :: vs))).
+Proof. exact stk_columns_anywhere. Qed.
+Print Assumptions C15_stk_columns_anywhere.
+
 (* every annotation line the writer emits is classified back to its item (the text layer of the round trip) *)
 Theorem C15_lines_items : forall a, wf_aln a = true -> map (fun l => parse_line (l ++ [NL])) (content_lines a) = items_of a.
 Proof. exact (fun a H => lines_items a (wf_aln_ok a H)). Qed.
 Print Assumptions C15_lines_items.
+
+(* fts2row then row2fts gives the (sorted) features back, for feature lists of ANY length, width and names: boundaries,
+   names (also when fts2row repeats the name of a wide feature), shared boundary columns, open ends as MISS_LEFT/MISS_RIGHT
+   and the column offset of the first feature; the row ends at the last stop *)
+Theorem C15_row_fts_inverse : forall l, wf_fts l = true ->
+  exists s, fts2row l = ROk s /\ row2fts s = sort_fts l /\ length s = last_stop 0 (sort_fts l).
+Proof. exact row_fts_inverse. Qed.
+Print Assumptions C15_row_fts_inverse.
+
+(* row2fts then fts2row then row2fts is the identity on features, for EVERY well-formed row of any length (any printable
+   name characters); the features of such a row are sorted and well-formed *)
+Theorem C15_row_fts_row : forall r, wf_rowstr r = true ->
+  exists s, fts2row (row2fts r) = ROk s /\ row2fts s = row2fts r /\ oksorted (row2fts r).
+Proof. exact row_fts_row. Qed.
+Print Assumptions C15_row_fts_row.
+
+(* the rows fts2row produces are fixed points of row2fts ; fts2row *)
+Theorem C15_row_canonical : forall l s, wf_fts l = true -> fts2row l = ROk s -> fts2row (row2fts s) = ROk s.
+Proof. exact row_canonical. Qed.
+Print Assumptions C15_row_canonical.
 
 (* row2fts (fts2row (row2fts r)) = row2fts r, and the features of a well-formed row are well-formed:
    complete enumeration of the 87 381 rows over {. | a b} of length <= 8 (21 835 of them well-formed) *)
@@ -135,3 +165,12 @@ Example C15_witness_nonadjacent :
     (fst (read_text (unhex (bs "233d474620524e205b315d0a233d474620524d203132330a233d474620524e205b325d0a6120414347550a2f2f0a"%bs))))
   = Some [("RN"%bs, "[1] [2]"%bs); ("RM"%bs, "123"%bs)].
 Proof. exact eq_refl. Qed.
+
+(* a 400-column feature: fts2row repeats the name, row2fts folds the repeats back (seeded change C15-3) *)
+Example C15_witness_wide :
+  wf_fts [wide_ft] = true /\
+  match fts2row [wide_ft] with
+  | ROk s => match row2fts s with [f] => ft_same f wide_ft | _ => false end && Nat.leb 4 (length (dot_tokens s))
+  | RErr _ => false
+  end = true.
+Proof. exact witness_wide. Qed.
